@@ -6,6 +6,11 @@ pub(crate) fn any_rc4() -> Rc4 {
     Rc4 { state: kani::any(), i: kani::any(), j: kani::any() }
 }
 
+/// arbitrary keystream, concrete position (for the I/O harnesses, which do not depend on the position)
+pub(crate) fn any_rc4_at(i: u8) -> Rc4 {
+    Rc4 { state: kani::any(), i, j: kani::any() }
+}
+
 pub(crate) fn rc4_same(a: &Rc4, b: &Rc4) -> bool {
     let mut eq = a.i == b.i && a.j == b.j;
     let mut k = 0;
